@@ -41,6 +41,10 @@ class Prop(common.PropertyCheck):
                 rows[0].update({'iid': 'FC001', 'time_order': rng.choice(['wrap', 'random'])})
                 rows[0]['units'][0] = rng.choice(['RFI', 'a.u.']); rows[0]['units'][1] = rng.choice(['Channel', 'RFI'])     # channels of resolution 1024 and 256
                 rewrite = True
+                # the list of fluorescence channels is typed with a blank before the first and after the last name (integer data, log amplifiers);
+                # row 0 gives units for both of them
+                if rows[0]['units'][2] is None or rows[0]['units'][2].strip().lower() == 'channel':
+                    rows[0]['units'][2] = 'RFI'
                 # a row reporting one calibrated channel in MEF; the other calibrated channel, not reported in MEF, was acquired at another detector voltage
                 rows[1].update({'iid': 'FC001', 'volt_other': {'FL3': 700}})
                 rows[1]['units'][0] = ['MEF', 'mef'][i % 2]; rows[1]['units'][2] = [None, 'RFI', 'Channel'][(i // 3) % 3]
@@ -62,14 +66,17 @@ class Prop(common.PropertyCheck):
                 rows[-1]['time_order'] = 'const'
             if i % 2 == 1:
                 rows[-1]['n'] = 400        # exactly the documented minimum number of events: analysed like any other file
+
             yield {'scatter_res': 256 if i % 3 == 1 or (i % 3 == 0 and i % 2 == 1) else None, 'odd_headers': i % 2 == 0, 'seed': rng.randrange(1 << 30), 'datatype': dt, 'ninst': ninst,
-                   'scatter_gain': rng.choice([None, None, 2, 0.5]), 'rows': rows, 'rewrite': rewrite, 'mixed_res': dt == 'I' and i % 3 == 0}
+                   'scatter_gain': rng.choice([None, None, 2, 0.5]), 'rows': rows, 'rewrite': rewrite, 'mixed_res': dt == 'I' and i % 3 == 0, 'fl_pad': i % 3 == 0}
 
     def run_impl(self, case):
         ex = excelgen.Experiment(case['seed'], datatype=case['datatype'], instruments=case['ninst'], scatter_gain=case['scatter_gain'],
                                  mixed_res=case.get('mixed_res', False))
         if case.get('scatter_res'):
             ex.scatter_res = case['scatter_res']
+        if case.get('fl_pad'):
+            ex.fl_pad = (' ', '  ')
         try:
             return self._run(case, ex)
         except Exception as e:
